@@ -139,3 +139,15 @@ Fixpoint run_history (ρ : list hval) (σ : store) (es : list hexpr) : store * l
       let '(σ3, outs) := run_history ρ σ2 es' in
       (σ3, out :: outs)
   end.
+
+(** executions one after the other, every result handle kept alive (as concurrent holders of
+    results would): returns the handles *)
+Fixpoint run_keep (ρ : list hval) (σ : store) (es : list hexpr) : store * list (outcome hval) :=
+  match es with
+  | [] => (σ, [])
+  | e :: es' =>
+      let '(σ1, r) := eval_h ρ σ e in
+      let '(σ2, rs) := run_keep ρ σ1 es' in
+      (σ2, r :: rs)
+  end.
+
